@@ -1,7 +1,7 @@
 (* C12: element_found_after_growth on the table model TableO2 (generated leaves + hand glue). *)
 From Coq Require Import ZArith Bool List Lia.
 From MomoCommon Require Import GenPrelude.
-From C12 Require Import Bits Known Gen_Base Gen_O2 Gen_O2MP MP_Open2N2 O2_Slot TableO2.
+From C12 Require Import Bits Known Gen_Base Gen_O2 Gen_O2MP MP_Open2N2 O2_Slot Chain TableO2.
 Import ListNotations.
 Local Open Scope Z_scope.
 
@@ -139,7 +139,7 @@ Proof.
 Qed.
 
 (* pvAddNogrow with a code that agrees with the true hash on what the placement reads *)
-Lemma add_nogrow_spec L t code key : 0 <= L <= 57 -> Tinv L t -> 0 <= code < 2 ^ 64 ->
+Lemma add_nogrow_spec L t code key : 0 <= L <= 63 -> Tinv L t -> 0 <= code < 2 ^ 64 ->
   Gen_Base.GetStartBucketIndex code (2 ^ L) = home L key ->
   Gen_O2.pvCalcShortHash code = Gen_O2.pvCalcShortHash (hash key) ->
   (forall p, 0 <= p -> (L + 7) mod 8 <> 0 -> o2_byte code L p = o2_byte (hash key) L p) ->
@@ -151,9 +151,9 @@ Lemma add_nogrow_spec L t code key : 0 <= L <= 57 -> Tinv L t -> 0 <= code < 2 ^
 Proof.
   intros HL [Hwf Hel] Hcode Hstart Hshort Hbyte.
   assert (Hpos : 0 < 2 ^ L) by (apply pow2_pos; lia).
-  assert (Hle : 2 ^ L <= 2 ^ 57) by (apply pow2_le_mono; lia).
+  assert (Hle : 2 ^ L <= 2 ^ 63) by (apply pow2_le_mono; lia).
   unfold add_nogrow. rewrite shl1_pow2 by lia.
-  rewrite (wrapU_small 64 (2 ^ L)) by (change (2 ^ 64) with (128 * 2 ^ 57); lia).
+  rewrite (wrapU_small 64 (2 ^ L)) by (change (2 ^ 64) with (2 * 2 ^ 63); lia).
   rewrite Hstart. pose proof (home_range L key ltac:(lia)) as Hhome. set (start := home L key) in *.
   pose proof (probe_loop_spec L t start ltac:(lia) (S (Z.to_nat (2 ^ L))) 0 ltac:(lia) ltac:(lia)) as Hloop.
   rewrite pidx_0 in Hloop by lia.
@@ -166,7 +166,7 @@ Proof.
     unfold Gen_O2.IsFull, Gen_O2.emptyShortHash in Hfull. pose proof (Hoc 0 ltac:(lia)).
     change (wrapU 8 (Z.shiftl 1 (wrapU 64 (wrapU 64 (1 * 8) - 1)))) with 128 in Hfull.
     destruct (Z.ltb_spec (bsh (t idx) 0) 128); [discriminate|lia]. }
-  rewrite o2_addcrt_eq by (try lia; change (2 ^ 64) with (128 * 2 ^ 57); lia).
+  rewrite o2_addcrt_eq by (try lia; change (2 ^ 64) with (2 * 2 ^ 63); lia).
   fold (cnt (t idx)). fold c. cbv zeta. destruct (Z.ltb_spec c 3); [|lia].
   rewrite (wrapU_small 64 (2 - c)) by (change (2 ^ 64) with 18446744073709551616; lia).
   destruct (st_inc (bst (t idx)) Henc ltac:(lia)) as (Henc' & Hdec' & Hcnt' & Hs0').
@@ -177,7 +177,7 @@ Proof.
   set (t1 := tupd t idx (mkB st' sh' hp' ky')).
   assert (Henc1 : enc_inv (bst (t1 start))).
   { unfold t1, tupd. destruct (Z.eqb start idx); [exact Henc'|apply (Hwf start)]. }
-  destruct (update_spec (bst (t1 start)) p Henc1 ltac:(change (2 ^ 63) with (64 * 2 ^ 57); lia))
+  destruct (update_spec (bst (t1 start)) p Henc1 ltac:(lia))
     as (st'' & Hupd & Henc'' & Hcov & Hmono & Hcb).
   rewrite Hupd. unfold count_bits in Hcb.
   set (t' := tupd t1 start (mkB st'' (bsh (t1 start)) (bhp (t1 start)) (bky (t1 start)))).
@@ -194,16 +194,19 @@ Proof.
   assert (Fst : forall j, enc_inv (bst (t' j)) /\ decode (bst (t j)) <= decode (bst (t' j)) /\
                           bst (t' j) 1 mod 4 = (if Z.eqb j idx then c + 1 else bst (t j) 1 mod 4) /\
                           (j = start -> p <= decode (bst (t' j)))).
-  { intros j. unfold t', tupd. destruct (Z.eqb_spec j start) as [->|Hjs]; cbn [bst].
+  { intros j. unfold t', tupd. destruct (Z.eqb_spec j start) as [Hjs|Hjs]; cbn [bst].
     - assert (Hc1 : st'' 1 mod 4 = bst (t1 start) 1 mod 4).
       { unfold Gen_O2MP.pvGetCount in Hcb. destruct Henc'' as (_ & ? & _). destruct Henc1 as (_ & ? & _).
         rewrite !land3 in Hcb by lia. exact Hcb. }
-      unfold decode in *. unfold t1, tupd in *. destruct (Z.eqb_spec start idx) as [->|]; cbn [bst] in *.
-      + repeat split; try assumption; try lia.
-      + repeat split; try assumption; try lia.
-    - unfold t1, tupd. destruct (Z.eqb_spec j idx) as [->|]; cbn [bst].
-      + repeat split; try assumption; try lia.
-      + destruct (Hwf j) as (He & _). repeat split; try assumption; try lia.
+      assert (Hrel : decode (bst (t j)) <= decode (bst (t1 start)) /\
+                     bst (t1 start) 1 mod 4 = (if Z.eqb j idx then c + 1 else bst (t j) 1 mod 4)).
+      { rewrite Hjs. unfold t1, tupd. destruct (Z.eqb_spec start idx) as [E|E]; cbn [bst].
+        - rewrite E. split; lia.
+        - split; lia. }
+      destruct Hrel as [Hr1 Hr2]. split; [exact Henc''|]. split; [lia|]. split; [congruence|]. intros _. exact Hcov.
+    - unfold t1, tupd. destruct (Z.eqb_spec j idx) as [E|E]; cbn [bst].
+      + rewrite E. split; [exact Henc'|]. split; [lia|]. split; [lia|]. intros Hx; exfalso; lia.
+      + destruct (Hwf j) as (He & _). split; [exact He|]. split; [lia|]. split; [reflexivity|]. intros Hx; exfalso; lia.
   }
   assert (Fcnt : forall j, cnt (t' j) = if Z.eqb j idx then c + 1 else cnt (t j)).
   { intros j. destruct (Fst j) as ((_ & H1 & _) & _ & Hm & _). rewrite cnt_val by lia. rewrite Hm.
@@ -223,12 +226,9 @@ Proof.
     destruct (Z.eqb_spec b idx) as [->|Hne].
     + destruct (Z.eq_dec slot (2 - c)) as [->|Hns].
       * unfold ky', sh', hp'. rewrite !upd_same. exists p. fold start.
-        destruct (Fst start) as (_ & _ & _ & Hb4).
-        repeat split; try lia; try assumption.
-        -- apply Hb4. reflexivity.
-        -- apply o2_byte_range; lia.
-        -- apply o2_byte_range; lia.
-        -- intros Hnz. apply Hbyte; lia.
+        destruct (Fst start) as (_ & _ & _ & Hb4). specialize (Hb4 eq_refl).
+        pose proof (o2_byte_range code L p ltac:(lia) ltac:(lia)) as Hbr.
+        repeat split; try lia; try assumption; try (intros Hnz; apply Hbyte; lia).
       * assert (Ho' : occ (t idx) slot) by (unfold occ; fold c; lia).
         destruct (Hel idx slot Hb Ho') as (p0 & Hp0 & Hb0 & Hbd0 & Hs0 & Hr0 & Hy0).
         unfold ky', sh', hp'. rewrite !upd_other by lia. exists p0.
@@ -245,4 +245,226 @@ Proof.
     destruct (Z.eqb_spec b idx) as [->|]; [|split; assumption].
     fold c in Ho. split; [lia|]. unfold ky'. rewrite upd_other by lia. assumption.
 Qed.
+
+(* GetHashCodePart on the raw arrays of a bucket whose slot idx holds a live element (true hash h, displacement probe) *)
+Lemma o2_code_raw st sh hp h bidx L newL idx probe : 0 <= h < 2 ^ 64 -> 0 <= L <= 63 -> L < newL <= 63 -> 0 <= probe ->
+  sh idx = Gen_O2.pvCalcShortHash h -> 0 <= hp idx < 256 -> ((L + 7) mod 8 <> 0 -> hp idx = o2_byte h L probe) ->
+  bidx = (h mod 2 ^ L + tri probe) mod 2 ^ L ->
+  exists c, Gen_O2.GetHashCodePart st sh hp h bidx L newL idx = Ok c /\ (c = h \/ c = known (qof newL) h).
+Proof.
+  intros Hh HL HnL Hp Hsh Hr Hv Hb.
+  destruct (Z.eq_dec ((L + 7) mod 8) 0) as [Hz|Hnz].
+  - rewrite o2_getpart_eq by lia.
+    assert (Hq : qof L <> qof newL) by (unfold qof; clear - Hz HL HnL; Z.div_mod_to_equations; lia).
+    replace (o2_full_used (hp idx) L newL) with true.
+    + exists h. split; [reflexivity|left; reflexivity].
+    + symmetry. apply o2_full_getter_iff. right. assumption.
+  - rewrite (o2_reconstruct st sh hp h bidx L newL idx h probe); try lia; try assumption; try (apply Hv; assumption).
+    eexists. split; [reflexivity|].
+    destruct (o2_full_used _ _ _) eqn:Hfu; [left; reflexivity|right].
+    unfold o2_full_used in Hfu. apply orb_false_iff in Hfu. destruct Hfu as [_ Hq].
+    destruct (Z.eqb_spec (qof L) (qof newL)) as [->|]; [reflexivity|discriminate].
+Qed.
+
+(* one iteration of pvRelocateItems' inner loop: the element moves to the new table onto the probe path of its TRUE hash *)
+Lemma relocate_item_spec L newL told tnew i : 0 <= L -> L < newL <= 63 -> Tinv L told -> Tinv newL tnew ->
+  0 <= i < 2 ^ L -> 0 < cnt (told i) ->
+  match relocate_item hash told tnew L newL i with
+  | Ok (told', tnew') =>
+      Tinv L told' /\ Tinv newL tnew' /\ cnt (told' i) = cnt (told i) - 1 /\ (forall j, j <> i -> told' j = told j) /\
+      (forall k, Present L told k -> Present L told' k \/ Present newL tnew' k) /\
+      (forall k, Present newL tnew k -> Present newL tnew' k)
+  | Exn => True
+  | _ => False
+  end.
+Proof.
+  intros HL0 HnL [Hwf Hel] Hnew Hi Hc0. unfold relocate_item.
+  pose proof (Hwf i) as Hwfi. pose proof (bwf_cnt _ Hwfi) as [Hc Hcv]. destruct Hwfi as (Henc & Hemp & Hoc).
+  set (b := told i) in *. set (c := cnt b) in *. set (slot := 3 - c). set (key := bky b slot).
+  assert (Ho : occ b slot) by (unfold occ; fold c; subst slot; lia).
+  destruct (Hel i slot Hi Ho) as (p0 & Hp0 & Hb0 & Hbd0 & Hs0 & Hr0 & Hy0). fold b key in Hb0, Hbd0, Hs0, Hr0, Hy0.
+  pose proof (hash_range key) as Hh.
+  destruct (o2_code_raw (bst b) (bsh b) (bhp b) (hash key) i L newL slot p0 Hh ltac:(lia) HnL ltac:(lia) Hs0 Hr0 Hy0)
+    as (code & Hcode & Hcc).
+  { rewrite Hb0 at 1. unfold pidx, home. rewrite start_mod by lia. reflexivity. }
+  fold b c slot key. rewrite Hcode.
+  assert (Hq0 : 0 <= qof newL) by (apply qof_nonneg; lia).
+  assert (Hagree : 0 <= code < 2 ^ 64 /\ Gen_Base.GetStartBucketIndex code (2 ^ newL) = home newL key /\
+                   Gen_O2.pvCalcShortHash code = Gen_O2.pvCalcShortHash (hash key) /\
+                   (forall p, 0 <= p -> (newL + 7) mod 8 <> 0 -> o2_byte code newL p = o2_byte (hash key) newL p)).
+  { destruct Hcc as [->| ->]; [repeat split; try reflexivity; lia|].
+    split; [apply known_range; lia|]. split; [|split].
+    - unfold home. apply start_known; try lia. apply qof_le. lia.
+    - apply o2_short_known. lia.
+    - intros p Hp Hnz. apply o2_byte_known; try lia. }
+  destruct Hagree as (Hcr & Ha1 & Ha2 & Ha3).
+  pose proof (add_nogrow_spec newL tnew code key ltac:(lia) Hnew Hcr Ha1 Ha2 Ha3) as Hadd.
+  destruct (add_nogrow tnew newL code key) as [tnew'| | |]; try exact Hadd.
+  destruct Hadd as (Hnew' & Hpres & Hmono).
+  rewrite o2_remove_eq by (fold (cnt b); fold c; lia). fold (cnt b). fold c. cbv zeta. fold slot.
+  destruct (Z.geb_spec slot slot); [|lia].
+  destruct (st_dec (bst b) Henc ltac:(lia)) as (Henc' & Hdec' & Hcnt' & Hs0').
+  set (st' := upd (bst b) 1 (wrapU 8 (bst b 1 - 1))) in *.
+  set (sh' := upd (upd (bsh b) slot (bsh b slot)) slot 128).
+  set (hp' := upd (bhp b) slot (bhp b slot)).
+  set (told' := tupd told i (mkB st' sh' hp' (bky b))).
+  assert (Fcnt : forall j, cnt (told' j) = if Z.eqb j i then c - 1 else cnt (told j)).
+  { intros j. unfold told', tupd. destruct (Z.eqb_spec j i); [|reflexivity].
+    destruct Henc' as (_ & ? & _). rewrite cnt_val by (cbn [bst]; lia). cbn [bst]. lia. }
+  assert (Fdec : forall j, decode (bst (told' j)) = decode (bst (told j))).
+  { intros j. unfold told', tupd. destruct (Z.eqb_spec j i) as [->|]; [|reflexivity]. cbn [bst]. exact Hdec'. }
+  assert (Fhp : forall j x, bhp (told' j) x = bhp (told j) x).
+  { intros j x. unfold told', tupd. destruct (Z.eqb_spec j i) as [->|]; [|reflexivity]. cbn [bhp]. unfold hp', upd.
+    destruct (Z.eqb_spec x slot) as [->|]; reflexivity. }
+  assert (Fky : forall j, bky (told' j) = bky (told j)).
+  { intros j. unfold told', tupd. destruct (Z.eqb_spec j i) as [->|]; reflexivity. }
+  assert (Fsh : forall j x, (j <> i \/ x <> slot) -> bsh (told' j) x = bsh (told j) x).
+  { intros j x Hx. unfold told', tupd. destruct (Z.eqb_spec j i) as [->|]; [|reflexivity]. cbn [bsh]. unfold sh'.
+    rewrite !upd_other by lia. reflexivity. }
+  split; [split|split; [exact Hnew'|split; [|split; [|split]]]].
+  - intros j. unfold bwf. rewrite Fcnt. destruct (Z.eqb_spec j i) as [->|Hne].
+    + split; [unfold told', tupd; rewrite Z.eqb_refl; exact Henc'|]. split; intros x Hx.
+      * destruct (Z.eq_dec x slot) as [->|]; [unfold told', tupd; rewrite Z.eqb_refl; cbn [bsh]; unfold sh'; apply upd_same|].
+        rewrite Fsh by lia. apply Hemp. subst slot. lia.
+      * rewrite Fsh by (subst slot; lia). apply Hoc. lia.
+    + pose proof (Hwf j) as Hj. unfold bwf in Hj. unfold told', tupd. destruct (Z.eqb_spec j i); [contradiction|exact Hj].
+  - intros b0 slot0 Hb0r Ho0. unfold occ in Ho0. rewrite Fcnt in Ho0.
+    assert (Ho0' : occ (told b0) slot0 /\ (b0 <> i \/ slot0 <> slot)).
+    { unfold occ. destruct (Z.eqb_spec b0 i) as [->|]; [fold b; fold c; subst slot; lia|lia]. }
+    destruct Ho0' as [Ho0' Hdiff].
+    destruct (Hel b0 slot0 Hb0r Ho0') as (p1 & Hp1 & Hbb1 & Hbd1 & Hs1 & Hr1 & Hy1).
+    unfold elem_ok. rewrite Fky, Fdec, Fhp, Fsh by assumption. exists p1. repeat split; try assumption; lia.
+  - rewrite Fcnt, Z.eqb_refl. reflexivity.
+  - intros j Hj. unfold told', tupd. destruct (Z.eqb_spec j i); [contradiction|reflexivity].
+  - intros k (b0 & slot0 & Hb0r & Ho0 & Hk0).
+    destruct (Z.eq_dec b0 i) as [->|Hne]; [destruct (Z.eq_dec slot0 slot) as [->|Hns]|].
+    + right. fold b in Hk0. fold key in Hk0. rewrite <- Hk0. exact Hpres.
+    + left. exists i, slot0. split; [assumption|]. unfold occ in *. rewrite Fcnt, Z.eqb_refl, Fky. fold b c in Ho0. subst slot. split; [lia|assumption].
+    + left. exists b0, slot0. split; [assumption|]. unfold occ in *. rewrite Fcnt, Fky. destruct (Z.eqb_spec b0 i); [contradiction|]. split; assumption.
+  - exact Hmono.
+Qed.
+
+Definition mig_post (L newL : Z) (told tnew told' tnew' : table) : Prop :=
+  Tinv L told' /\ Tinv newL tnew' /\
+  (forall k, Present L told k -> Present L told' k \/ Present newL tnew' k) /\
+  (forall k, Present newL tnew k -> Present newL tnew' k).
+
+Lemma migrate_bucket_spec L newL i : 0 <= L -> L < newL <= 63 -> 0 <= i < 2 ^ L ->
+  forall fuel told tnew, Tinv L told -> Tinv newL tnew -> (Z.to_nat (cnt (told i)) < fuel)%nat ->
+  match migrate_bucket hash fuel told tnew L newL i with
+  | Ok (told', tnew') => mig_post L newL told tnew told' tnew' /\ cnt (told' i) = 0 /\ (forall j, j <> i -> told' j = told j)
+  | Exn => True
+  | _ => False
+  end.
+Proof.
+  intros HL HnL Hi. induction fuel as [|f IH]; intros told tnew Hold Hnew Hf; [lia|].
+  cbn [migrate_bucket]. pose proof (bwf_cnt _ (proj1 Hold i)) as [Hc _].
+  destruct (Z.eqb_spec (cnt (told i)) 0) as [Hz|Hnz].
+  - split; [|split; [assumption|reflexivity]]. unfold mig_post. split; [exact Hold|split; [exact Hnew|split; auto]].
+  - pose proof (relocate_item_spec L newL told tnew i HL HnL Hold Hnew Hi ltac:(lia)) as Hstep.
+    destruct (relocate_item hash told tnew L newL i) as [[told1 tnew1]| | |]; try exact Hstep.
+    destruct Hstep as (Ho1 & Hn1 & Hc1 & Hfr1 & Hp1 & Hm1).
+    specialize (IH told1 tnew1 Ho1 Hn1 ltac:(lia)).
+    destruct (migrate_bucket hash f told1 tnew1 L newL i) as [[told2 tnew2]| | |]; try exact IH.
+    destruct IH as ((Ho2 & Hn2 & Hp2 & Hm2) & Hc2 & Hfr2).
+    split; [|split; [assumption|]].
+    + unfold mig_post. split; [exact Ho2|split; [exact Hn2|split]].
+      * intros k Hk. destruct (Hp1 k Hk) as [H1|H1]; [apply Hp2; assumption|right; apply Hm2; assumption].
+      * intros k Hk. apply Hm2, Hm1. assumption.
+    + intros j Hj. rewrite Hfr2, Hfr1 by assumption. reflexivity.
+Qed.
+
+Lemma migrate_from_spec L newL : 0 <= L -> L < newL <= 63 ->
+  forall n told tnew i, 0 <= i -> i + Z.of_nat n <= 2 ^ L -> Tinv L told -> Tinv newL tnew ->
+  (forall j, 0 <= j < i -> cnt (told j) = 0) ->
+  match migrate_from hash n told tnew L newL i with
+  | Ok (told', tnew') => mig_post L newL told tnew told' tnew' /\ (forall j, 0 <= j < i + Z.of_nat n -> cnt (told' j) = 0)
+  | Exn => True
+  | _ => False
+  end.
+Proof.
+  intros HL HnL. induction n as [|m IH]; intros told tnew i Hi Hn Hold Hnew Hz.
+  - cbn [migrate_from]. split; [|intros j Hj; apply Hz; lia].
+    unfold mig_post. split; [exact Hold|split; [exact Hnew|split; auto]].
+  - cbn [migrate_from].
+    pose proof (bwf_cnt _ (proj1 Hold i)) as [Hc _].
+    pose proof (migrate_bucket_spec L newL i HL HnL ltac:(lia) 4%nat told tnew Hold Hnew ltac:(lia)) as Hb.
+    destruct (migrate_bucket hash 4 told tnew L newL i) as [[told1 tnew1]| | |]; try exact Hb.
+    destruct Hb as ((Ho1 & Hn1 & Hp1 & Hm1) & Hc1 & Hfr1).
+    specialize (IH told1 tnew1 (i + 1) ltac:(lia) ltac:(lia) Ho1 Hn1).
+    assert (Hz1 : forall j, 0 <= j < i + 1 -> cnt (told1 j) = 0).
+    { intros j Hj. destruct (Z.eq_dec j i) as [->|]; [assumption|]. rewrite Hfr1 by assumption. apply Hz. lia. }
+    specialize (IH Hz1).
+    destruct (migrate_from hash m told1 tnew1 L newL (i + 1)) as [[told2 tnew2]| | |]; try exact IH.
+    destruct IH as ((Ho2 & Hn2 & Hp2 & Hm2) & Hz2).
+    split.
+    + unfold mig_post. split; [exact Ho2|split; [exact Hn2|split]].
+      * intros k Hk. destruct (Hp1 k Hk) as [H1|H1]; [apply Hp2; assumption|right; apply Hm2; assumption].
+      * intros k Hk. apply Hm2, Hm1. assumption.
+    + intros j Hj. apply Hz2. lia.
+Qed.
+
+(* what pvFind + BucketOpen2N2::Find examine for key k: the probes 0..GetMaxProbe(home bucket) along the path of the TRUE
+   hash, in each bucket the slots whose short hash equals the true short hash, then key equality *)
+Definition Found (L : Z) (t : table) (k : Z) : Prop :=
+  exists p slot, 0 <= p <= decode (bst (t (home L k))) /\ p < 2 ^ L /\ 0 <= slot <= 2 /\
+    bsh (t (pidx L (home L k) p)) slot = Gen_O2.pvCalcShortHash (hash k) /\ bky (t (pidx L (home L k) p)) slot = k.
+
+Lemma present_found L t k : Tinv L t -> Present L t k -> Found L t k.
+Proof.
+  intros [Hwf Hel] (b & slot & Hb & Ho & Hk). destruct (Hel b slot Hb Ho) as (p & Hp & Hbp & Hbd & Hs & _).
+  rewrite Hk in *. exists p, slot. pose proof (bwf_cnt _ (Hwf b)) as [Hc _]. unfold occ in Ho.
+  rewrite <- Hbp. repeat split; try lia; assumption.
+Qed.
+
+(* element_found_after_growth *)
+Theorem migrate_found L newL told : 0 <= L -> L < newL <= 63 -> Tinv L told ->
+  match migrate hash told L newL with
+  | Ok (_, tnew) => Tinv newL tnew /\ (forall k, Present L told k -> Found newL tnew k)
+  | Exn => True            (* "Hash table is full": cannot happen when the new capacity suffices; not needed here *)
+  | _ => False             (* no MOMO_ASSERT fails, no loop runs out of fuel *)
+  end.
+Proof.
+  intros HL HnL Hold. unfold migrate.
+  assert (Hpos : 0 < 2 ^ L) by (apply pow2_pos; lia).
+  pose proof (migrate_from_spec L newL HL HnL (Z.to_nat (2 ^ L)) told empty_table 0 ltac:(lia) ltac:(lia) Hold (empty_inv newL)
+              ltac:(intros; lia)) as Hm.
+  destruct (migrate_from hash (Z.to_nat (2 ^ L)) told empty_table L newL 0) as [[told' tnew']| | |]; try exact Hm.
+  destruct Hm as ((Ho & Hn & Hp & _) & Hz). split; [assumption|].
+  intros k Hk. apply present_found; [assumption|].
+  destruct (Hp k Hk) as [(b & slot & Hb & Hocc & _)|H1]; [exfalso|assumption].
+  unfold occ in Hocc. rewrite Hz in Hocc by lia. lia.
+Qed.
+
+(* a table filled by insertions with the full hash (HashSet::Insert without growth) satisfies the invariant, so the
+   theorem applies to every such table; Remove only clears a slot (see the Remove part of relocate_item_spec) *)
+Lemma insert_all_inv L : 0 <= L <= 63 -> forall keys t, Tinv L t ->
+  match insert_all hash t L keys with
+  | Ok t' => Tinv L t' /\ (forall k, Present L t k -> Present L t' k) /\ (forall k, In k keys -> Present L t' k)
+  | Exn => True
+  | _ => False
+  end.
+Proof.
+  intros HL. induction keys as [|k r IH]; intros t Ht; cbn [insert_all].
+  - split; [assumption|]. split; [auto|intros k []].
+  - pose proof (add_nogrow_spec L t (hash k) k HL Ht (hash_range k) eq_refl eq_refl ltac:(intros; reflexivity)) as Ha.
+    destruct (add_nogrow t L (hash k) k) as [t1| | |]; try exact Ha.
+    destruct Ha as (Ht1 & Hp1 & Hm1). specialize (IH t1 Ht1).
+    destruct (insert_all hash t1 L r) as [t2| | |]; try exact IH.
+    destruct IH as (Ht2 & Hm2 & Hin). split; [assumption|]. split.
+    + intros k0 Hk0. apply Hm2, Hm1. assumption.
+    + intros k0 [<-|Hr]; [apply Hm2; assumption|apply Hin; assumption].
+Qed.
 End Inv.
+
+(* non-vacuity: a concrete table of 4 buckets with 8 colliding keys migrates to 32 buckets without "table full" *)
+Definition demo_hash (k : Z) : Z := (k * 11400714819323198485) mod 2 ^ 64.
+Lemma demo_hash_range k : 0 <= demo_hash k < 2 ^ 64.
+Proof. unfold demo_hash. apply Z.mod_pos_bound. reflexivity. Qed.
+
+Lemma table_nonvacuous :
+  match insert_all demo_hash empty_table 2 [1; 2; 3; 4; 5; 6; 7; 8] with
+  | Ok t => match migrate demo_hash t 2 5 with Ok _ => true | _ => false end
+  | _ => false
+  end = true.
+Proof. vm_compute. reflexivity. Qed.
